@@ -325,7 +325,11 @@ def s_routes(tier):
             "lengths": st.lists(st.one_of(st.integers(1, 30).map(float), st.floats(1.0, 30.0)), min_size=n, max_size=n),
             "start": st.integers(0, n - 1),
             "range": st.one_of(st.floats(0.5, 120.0), st.integers(1, 100).map(float)),
-            "shape": st.sampled_from(["free", "chain", "cycle", "diamond"]),
+            "shape": st.sampled_from(["free", "chain", "cycle", "diamond", "braid", "shortcut"]),
+            # lanelet ids: 1..n, or ids whose decimal concatenations coincide (merged lanelets are numbered by
+            # concatenating the ids of their parts: 1|2|34 = 1|23|4, 1|2|3 = 1|23), or a draw from such a pool
+            "ids": st.one_of(st.none(), st.none(), st.just("concat"),
+                             st.lists(st.sampled_from(ID_POOL), min_size=n, max_size=n, unique=True)),
             "range_mask": st.one_of(st.just(0), st.integers(1, 255)),
             # lanelets with a right-angle bend: same centre-line length, shorter inner boundary
             "bends": st.one_of(st.just([False] * n), st.lists(st.booleans(), min_size=n, max_size=n)),
@@ -334,9 +338,27 @@ def s_routes(tier):
     return st.integers(2, 8).flatmap(graph)
 
 
+ID_POOL = [1, 2, 3, 4, 5, 6, 12, 23, 34, 45, 123, 234]
+CONCAT_IDS = {"braid": [1, 2, 34, 23, 4, 5, 6, 7], "shortcut": [1, 2, 3, 23, 4, 5, 6, 7]}
+
+
+def lanelet_ids(r):
+    n = r["n"]
+    ids = r.get("ids")
+    if ids == "concat":
+        return CONCAT_IDS.get(r["shape"], [1, 2, 12, 3, 23, 4, 34, 123])[:n]
+    return list(ids) if ids else list(range(1, n + 1))
+
+
 def graph_edges(r):
     n = r["n"]
     edges = set(tuple(e) for e in r["edges"])
+    if r["shape"] == "braid" and n >= 6:
+        # two two-hop branches that join again: 0 -> 1 -> 2 -> 5 and 0 -> 3 -> 4 -> 5
+        edges |= {(0, 1), (1, 2), (2, 5), (0, 3), (3, 4), (4, 5)} | {(i, i + 1) for i in range(5, n - 1)}
+    elif r["shape"] == "shortcut" and n >= 5:
+        # a two-hop branch and a one-hop short cut: 0 -> 1 -> 2 -> 4 and 0 -> 3 -> 4
+        edges |= {(0, 1), (1, 2), (2, 4), (0, 3), (3, 4)} | {(i, i + 1) for i in range(4, n - 1)}
     if r["shape"] == "chain":
         edges |= {(i, i + 1) for i in range(n - 1)}
     elif r["shape"] == "cycle":
@@ -354,12 +376,120 @@ def graph_edges(r):
     return keep
 
 
+STRUCTURES = {
+    # node -> (junction it starts at, junction it ends at); a lanelet's successors start where it ends
+    "chain": [(0, 1), (1, 2), (2, 3), (3, 4), (4, 5), (5, 6)],
+    "diamond": [(0, 1), (1, 2), (1, 2), (2, 3), (3, 4), (4, 5)],
+    "braid": [(0, 1), (1, 2), (2, 4), (1, 3), (3, 4), (4, 5), (5, 6)],
+    "shortcut": [(0, 1), (1, 2), (2, 3), (1, 3), (3, 4), (4, 5)],
+}
+
+
+def s_merged_routes(tier):
+    def build(shape):
+        nodes = STRUCTURES[shape]
+        nj = max(max(a, b) for a, b in nodes) + 1
+        lo = {"chain": 2, "diamond": 4, "braid": 6, "shortcut": 5}[shape]
+        return st.integers(lo, len(nodes)).flatmap(lambda n: st.fixed_dictionaries({
+            "shape": st.just(shape), "n": st.just(n),
+            "junctions": st.lists(st.tuples(st.floats(-3, 3), st.floats(-5, 5)).map(list), min_size=nj, max_size=nj),
+            "bumps": st.lists(st.one_of(st.floats(-3, 3), st.integers(-3, 3).map(float)), min_size=n, max_size=n),
+            "ids": st.one_of(st.none(), st.just("concat"), st.just("concat"),
+                             st.lists(st.sampled_from(ID_POOL), min_size=n, max_size=n, unique=True)),
+            "start": st.one_of(st.just(0), st.just(n - 1), st.integers(0, n - 1)),
+            "range": st.one_of(st.just(1000.0), st.floats(5.0, 80.0)),
+            "prequery": st.booleans()}))
+    return st.sampled_from(sorted(STRUCTURES)).flatmap(build)
+
+
+def check_merged_routes(r, ctx):
+    """all_lanelets_by_merging_{successors,predecessors}_from_lanelet on networks whose lanelets really are joined end
+    to start: one merged lanelet per route of the range search, each made of exactly the lanelets of its own route
+    (boundaries concatenated in driving order, the joint vertices kept once), length = sum of the parts."""
+    n = r["n"]
+    nodes = STRUCTURES[r["shape"]][:n]
+    ids = lanelet_ids(r)
+    junction = [[10.0 * j + d[0], d[1]] for j, d in enumerate(r["junctions"])]
+    succ = {i: [j for j in range(n) if nodes[j][0] == nodes[i][1]] for i in range(n)}
+    pred = {i: [j for j in range(n) if nodes[j][1] == nodes[i][0]] for i in range(n)}
+    lanelets = []
+    for i, (a, b) in enumerate(nodes):
+        p, q = junction[a], junction[b]
+        mid = [(p[0] + q[0]) / 2, (p[1] + q[1]) / 2 + r["bumps"][i]]
+        centre = np.array([p, mid, q])
+        lanelets.append(Lanelet(centre + np.array([0.0, 1.0]), centre, centre - np.array([0.0, 1.0]), ids[i],
+                                predecessor=[ids[j] for j in pred[i]], successor=[ids[j] for j in succ[i]]))
+    if r["prequery"]:
+        for la in lanelets:
+            la.distance
+            la.polygon
+    net = LaneletNetwork.create_from_lanelet_list(lanelets, cleanup_ids=False)
+    by_id = {x.lanelet_id: x for x in lanelets}
+    index_of = {lid: i for i, lid in enumerate(ids)}
+    la = net.find_lanelet_by_id(ids[r["start"]])
+    seen_multi = False
+    for direction, rel in (("succ", succ), ("pred", pred)):
+        fn = (Lanelet.all_lanelets_by_merging_successors_from_lanelet if direction == "succ"
+              else Lanelet.all_lanelets_by_merging_predecessors_from_lanelet)
+        search = la.find_lanelet_successors_in_range if direction == "succ" else la.find_lanelet_predecessors_in_range
+        paths = search(net, max_length=r["range"])
+        if direction == "pred":
+            # merged lanelets are numbered by decimal concatenation; walking backwards (3, then 2 -> "23") such a number
+            # can be the id of a lanelet of the network, and merge_lanelets - which finds out from the ids alone which
+            # of its two arguments comes first - is then undecided. The statement says nothing about that situation.
+            numbers = set()
+            for path in paths:
+                acc = str(la.lanelet_id)
+                for q in path:
+                    acc = str(q) + acc
+                    numbers.add(int(acc))
+            if numbers & set(ids):
+                ctx.label("pred-skipped-merged-number-is-a-lanelet-id")
+                continue
+        merged, routes = fn(la, net, max_length=r["range"])
+        if len(merged) != len(routes):
+            raise Violation("merged-routes-%s-count" % direction, "%d merged lanelets for %d routes" % (
+                len(merged), len(routes)))
+        expected = [[la.lanelet_id] + list(p) for p in paths] if rel[r["start"]] else [[la.lanelet_id]]
+        if sorted(map(list, routes)) != sorted(expected):
+            raise Violation("merged-routes-%s-route-list" % direction, "routes %r, the range search gives %r" % (
+                routes, expected))
+        for m, route in zip(merged, routes):
+            for u, v in zip(route, route[1:]):
+                if index_of[v] not in rel[index_of[u]]:
+                    raise Violation("merged-routes-%s-not-a-link" % direction, "%r: %d -> %d" % (route, u, v))
+            order = list(route) if direction == "succ" else list(reversed(route))
+            for name in ("left_vertices", "center_vertices", "right_vertices"):
+                parts = [getattr(by_id[q], name) for q in order]
+                ref = np.concatenate([parts[0]] + [x[1:] for x in parts[1:]])
+                got = np.asarray(getattr(m, name), dtype=float)
+                if got.shape != ref.shape or not (abs(got - ref) <= 1e-9).all():
+                    raise Violation("merged-routes-%s-geometry" % direction, "route %r: %s of the merged lanelet is %r, "
+                                    "its parts in driving order give %r" % (route, name, got.tolist(), ref.tolist()))
+            total = sum(float(by_id[q].distance[-1]) for q in order)
+            d = np.asarray(m.distance, dtype=float)
+            if abs(d[0]) > 0 or (np.diff(d) < 0).any() or abs(float(d[-1]) - total) > 1e-9 * (1 + total):
+                raise Violation("merged-routes-%s-length" % direction, "route %r: distance %r, parts sum to %r" % (
+                    route, d.tolist(), total))
+            if len(route) > 2:
+                seen_multi = True
+        ctx.label("%s-routes-%d" % (direction, min(len(routes), 3)))
+    ctx.label("shape-" + r["shape"])
+    ctx.label("ids-" + ("default" if r["ids"] is None else r["ids"] if isinstance(r["ids"], str) else "pool"))
+    if seen_multi:
+        ctx.nontrivial()
+
+
 def check_routes(r, ctx):
     n = r["n"]
     edges = graph_edges(r)
     succ = {i: sorted(j for (a, j) in edges if a == i) for i in range(n)}
     pred = {i: sorted(a for (a, j) in edges if j == i) for i in range(n)}
     lanelets = []
+    ids = lanelet_ids(r)
+    index_of = {lid: i for i, lid in enumerate(ids)}
+    if ids != list(range(1, n + 1)):
+        ctx.label("ids-concat" if r.get("ids") == "concat" else "ids-from-pool")
     for i in range(n):
         ln = r["lengths"][i]
         y = 10.0 * i
@@ -373,8 +503,8 @@ def check_routes(r, ctx):
             ctx.label("bent-lanelet")
         else:
             left, centre, right = [[0.0, y + 1], [ln, y + 1]], [[0.0, y], [ln, y]], [[0.0, y - 1], [ln, y - 1]]
-        lanelets.append(Lanelet(np.array(left), np.array(centre), np.array(right), i + 1,
-                                predecessor=[p + 1 for p in pred[i]], successor=[s + 1 for s in succ[i]]))
+        lanelets.append(Lanelet(np.array(left), np.array(centre), np.array(right), ids[i],
+                                predecessor=[ids[p] for p in pred[i]], successor=[ids[s] for s in succ[i]]))
     drop = {i for i in range(n) if (r.get("drop_mask", 0) >> i) & 1 and i != r["start"]}
     if drop:
         # the network is built from a subset of the lanelets (default cleanup of references to lanelets that are not
@@ -388,7 +518,7 @@ def check_routes(r, ctx):
         net = LaneletNetwork.create_from_lanelet_list(lanelets, cleanup_ids=False)
     # the "< range" rule is decided exactly when the library's lanelet lengths are exactly the recipe's; otherwise
     # (rounding inside the length computation) an accumulated length within 1e-9 of the range is a don't-care
-    exact = all(float(la.distance[-1]) == r["lengths"][la.lanelet_id - 1] for la in lanelets)
+    exact = all(float(la.distance[-1]) == r["lengths"][index_of[la.lanelet_id]] for la in lanelets)
     start = r["start"]
     rng = r["range"]
     if r.get("range_mask"):
@@ -397,7 +527,7 @@ def check_routes(r, ctx):
         ctx.label("range-equals-subset-sum")
     has_cycle = _has_cycle(succ, n)
     for direction, rel in (("succ", succ), ("pred", pred)):
-        la = net.find_lanelet_by_id(start + 1)
+        la = net.find_lanelet_by_id(ids[start])
         fn = la.find_lanelet_successors_in_range if direction == "succ" else la.find_lanelet_predecessors_in_range
         try:
             paths, steps = run_with_step_budget(lambda: fn(net, max_length=rng))
@@ -407,23 +537,26 @@ def check_routes(r, ctx):
         direct = rel[start]
         heads = set()
         for p in paths:
-            ids = [q - 1 for q in p]
-            if not ids:
+            if any(q not in index_of for q in p):
+                raise Violation("route-%s-unknown-id" % direction, "%r names a lanelet that is not in the network %r"
+                                % (p, ids))
+            nodes = [index_of[q] for q in p]
+            if not nodes:
                 raise Violation("route-%s-empty-path" % direction, repr(paths))
-            if ids[0] not in direct:
+            if nodes[0] not in direct:
                 raise Violation("route-%s-bad-head" % direction, "%r does not start at a direct neighbour %r" % (
-                    p, [d + 1 for d in direct]))
-            heads.add(ids[0])
-            if len(set(ids)) != len(ids):
+                    p, [ids[d] for d in direct]))
+            heads.add(nodes[0])
+            if len(set(nodes)) != len(nodes):
                 raise Violation("route-%s-repeated-node" % direction, repr(p))
-            if start in ids:
+            if start in nodes:
                 raise Violation("route-%s-revisits-start" % direction, repr(p))
-            for u, v in zip(ids, ids[1:]):
+            for u, v in zip(nodes, nodes[1:]):
                 if v not in rel[u]:
-                    raise Violation("route-%s-not-a-link" % direction, "%r: %d -> %d" % (p, u + 1, v + 1))
+                    raise Violation("route-%s-not-a-link" % direction, "%r: %d -> %d" % (p, ids[u], ids[v]))
             acc = 0.0
-            for k in range(len(ids) - 1):
-                acc += r["lengths"][ids[k]]
+            for k in range(len(nodes) - 1):
+                acc += r["lengths"][nodes[k]]
                 if not exact and abs(acc - rng) <= 1e-9 * (1 + rng):
                     ctx.band_case("range-boundary-inexact-lengths")
                     break
@@ -432,7 +565,7 @@ def check_routes(r, ctx):
                                     "%r extended after accumulated length %r >= range %r" % (p, acc, rng))
         if set(direct) - heads:
             raise Violation("route-%s-uncovered-neighbour" % direction, "direct %r, heads %r" % (
-                [d + 1 for d in direct], sorted(h + 1 for h in heads)))
+                [ids[d] for d in direct], sorted(ids[h] for h in heads)))
     lens = sorted(r["lengths"])
     ctx.label("cyclic" if has_cycle else "acyclic")
     ctx.label("shape-" + r["shape"])
@@ -460,6 +593,12 @@ FACETS = [
     Facet("merge", check_merge, strategy=s_merge, quick=3000, thorough=100000,
           rule="predecessor/successor pairs joined exactly (joint kept once, length = sum) or with a gap "
                "(concatenation), linked via successor or predecessor lists, both argument orders"),
+    Facet("merged-routes", check_merged_routes, strategy=s_merged_routes, quick=2500, thorough=100000,
+          rule="chain / diamond / braid / short-cut networks of lanelets joined end to start, ids 1..n or ids whose "
+               "decimal concatenations coincide (merged lanelets are numbered by concatenation), lanelets fresh or "
+               "used before; all_lanelets_by_merging_successors / _predecessors_from_lanelet: one merged lanelet per "
+               "route of the range search, boundaries = the route's lanelets in driving order with joint vertices once, "
+               "length = sum of parts; non-trivial = a route of >= 3 lanelets"),
     Facet("routes", check_routes, strategy=s_routes, quick=4000, thorough=200000,
           rule="digraphs on 2-8 lanelets (free / chain / cycle / diamond, out-degree <= 3), lengths 1-30, ranges "
                "0.5-120, successors and predecessors; non-trivial = cyclic or diamond graph or range between the "
